@@ -419,6 +419,16 @@ def r_csc_helpers(A, ctx, scope, rule="R-CSC-HELPERS"):
             return RegionLifter(A.prog, rg, max_steps=20000), rg
         cases = []
         f = _func(A, mod, "sparse_columns_slice")
+        # a four-column design for unsorted, non-contiguous selections whose first and last
+        # entries look like a contiguous block ([0, 3, 2]: last - first == size - 1)
+        X4, csc4 = _design([[1, 0, 1, 1], [1, 1, 0, 0], [0, 1, 1, 1]])
+        for cols in ([0, 3, 2], [1, 3, 2], [3, 1, 0, 2]):
+            def go4(L, cols=cols, f=f):
+                for i in range(N):
+                    L.rg.values[f"x{i}3"] = 0.4 - 0.3 * i
+                tri = L.call_function(f, [Vec(cols)] + list(csc4))
+                return _to_dense(L, tri, N), Mat(Vec(row[c] for c in cols) for row in X4)
+            cases.append((f, f"4 columns, cols={cols}", go4))
         for cols in ([1, 2], [2, 0], [0, 1, 2], [1]):
             def go(L, cols=cols, f=f):
                 tri = L.call_function(f, [Vec(cols)] + list(csc))
